@@ -399,6 +399,11 @@ func (g *frameGen) random(n int) {
 }
 
 func (g *frameGen) wr(t string, s uint32, fl int, pad int, kv string) {
+	// one write in five goes through SetFlags first with an arbitrary octet (all 256 values, undefined bits and the
+	// top bit included): whatever the caller puts there, the nine header octets keep their layout
+	if fl == 0 && g.p.chance(1, 5) {
+		fl = g.p.intn(256)
+	}
 	fmt.Fprintf(g.w, "frame.write %s s=%d fl=%d pad=%d %s\n", t, s, fl, pad, kv)
 	g.n++
 }
